@@ -17,3 +17,10 @@ CHECKS["C17"] = dict(
     text="For every valid dep5 glob over {a . / * ? \\} up to length 4 (quick) / 5 (thorough) plus random longer ones, the real pipeline dep5 -> Copyright -> toml_from_dep5 -> ReuseTOML.from_toml is run and z3 decides, for ALL normalised project-relative paths of any length, that the dep5 matcher and the converted matcher accept the same paths; for two globs per paragraph and two paragraphs the last-match-wins attribution languages are compared the same way, and the attributed copyright/licence/precedence are compared on solver-produced witnesses through the two real reuse_info_of methods.",
     note="Trusted: z3, re._parser, vf/re2z3.py, python-debian/tomlkit executed concretely. Outside: write-then-unlink ordering of the CLI command (planned XH obligation), whole lint report. Known findings: '?' wildcard, doubled escaped asterisk, LF, and the REUSE.toml matcher's own C05 findings inherited through '*/' -> '**/'.",
 )
+
+CHECKS["C12"] = dict(
+    engine="XH",
+    technique="symbolic execution (CrossHair + z3) of the real filter_ignore_block and extract_reuse_info against a reference scanner, all paths confirmed within the bound",
+    text="CrossHair explores every path of the real filter_ignore_block on texts assembled from START/END markers and free chunks (all shapes up to 4 segments quick / 5 thorough, chunk characters symbolic) and of extract_reuse_info on every sequence of 4 (quick) / 5 (thorough) tokens from {start, end, licence, copyright, contributor, text, newline}; 'Confirmed over all paths' means the equality with the reference holds for every value of the symbolic characters / token kinds inside that bound.",
+    note="Trusted: CrossHair's str model, z3, the 12-line reference scanner. Each condition has a reachability twin (post: False) that must be violated. Licence parsing runs natively on per-path concrete strings. Outside: more segments than the bound; markers following a tag on the same line.",
+)
